@@ -33,7 +33,7 @@ RULE = ("cases = (every class of ALL_CLASSES x random parameter / bounds / scala
         "format with 1-3 cycles + ElectronAnalyzer (RHF/UHF/RKS/UKS) dump/load; a sub-case is non-trivial when the "
         "original evaluates to finite, non-constant values with a non-zero derivative and repeats bitwise; distinct = "
         "distinct (class or composition, parameter digest, format, cycles)")
-MIN_NONTRIVIAL = {"quick": 400, "thorough": 3000}
+MIN_NONTRIVIAL = {"quick": 1500, "thorough": 12000}
 ASSUMPTIONS = ["workers run with OMP_NUM_THREADS=OPENBLAS_NUM_THREADS=1; bitwise comparison is only made between runs of "
                "the same single-threaded computation (guarded by evaluating the original twice)",
                "files are written and read by the same library versions (cross-version pickles out of scope)",
@@ -938,7 +938,10 @@ def _build_model(cfg, rng):
     for k in cfg["kernels"]:
         nmaps = max(2, k["nmaps"])
         fl = _model_feature_list(st, rng, nmaps, cfg.get("map_pool", "simple"))
-        fe = [_rand_feval(s, fl.nfeat, rng) for s in k["evals"].split("+")]
+        # AntisymRBFEvaluator antisymmetrises the first two transformed features: it needs at least two of them
+        # (with one, the C kernel reads past the row; that is an admissibility matter, not a reload question)
+        specs = [("rbf" if (s == "antisym" and fl.nfeat < 2) else s) for s in k["evals"].split("+")]
+        fe = [_rand_feval(s, fl.nfeat, rng) for s in specs]
         if cfg["cls"] == "xc1":
             mul = k["mul"] if (k["mul"] != "nlda_x_damp" or st.nfeat >= 4) else "lda_x"
             kernels.append(xe.MappedDFTKernel(fe, fl, k["mode"], getattr(bl, mul), getattr(bl, k["add"])))
